@@ -573,7 +573,8 @@ SPEC = Spec(
         "dominated by a length test in the same arm; the broadcast/reduce "
         "recognisers see the un-cast expression; operands are recognised only "
         "through their exact broadcast subscript in a lambda whose shape equals the "
-        "operands' broadcast shape."),
+        "operands' broadcast shape. "
+        "R19-PATTERN also: the recognisers never look through a TypeCast; kept (non-reduced) subscripts are matched as _0, _1, ... in order with a counter that advances exactly once per matched kept axis; integer tests on reduction bounds use INT_CLASSES."),
     not_decided=(
         "That applying the recognised operation with NumPy reproduces the pointwise "
         "value; near-miss rejection for arbitrary hand-built expressions (subscript "
